@@ -16,17 +16,25 @@ def run(prop, cfg, seed):
         undecided.append("replay crate does not build: " + err[-300:])
         return {"report": report, "violations": violations, "undecided": undecided}
     for twin in cfg.get("sweep_twins", []):
-        p = subprocess.run([C.REPLAY_BIN, "search", twin, "--seed", str(seed)], capture_output=True, text=True, timeout=3600)
         try:
+            p = subprocess.run([C.REPLAY_BIN, "sweep", twin, "--seed", str(seed)], capture_output=True, text=True, timeout=3600)
             v = json.loads(p.stdout.strip().split("\n")[-1])
         except Exception:
             undecided.append("sweep %s produced no result" % twin)
             continue
-        report["twin_sweeps"].append({"twin": twin, "found": v.get("found", False), "bounded": True})
-        if v.get("found"):
+        n_bad = v.get("disagreements", 0)
+        entry = {"twin": twin, "disagreements": n_bad, "bounded": True}
+        for k in ("evaluations", "member_checks", "kinds"):
+            if k in v:
+                entry[k] = v[k]
+        report["twin_sweeps"].append(entry)
+        if n_bad:
+            first = v.get("first") or {}
             rp = os.path.join(C.REPLAYS, "%s-sweep-%s.json" % (prop, twin.replace(".", "_")))
-            v.update({"property": prop, "obligation": ["executable twin disagrees with the real code (bounded sweep)"]})
-            json.dump(v, open(rp, "w"), indent=1)
+            rec = {"property": prop, "twin": twin, "bounded": True, "decided_by": "BOUNDED twin sweep (thorough tier)",
+                   "obligation": ["executable twin of the contract disagrees with the real code"],
+                   "input": first.get("input"), "observed": first.get("observed"), "expected": first.get("expected")}
+            json.dump(rec, open(rp, "w"), indent=1)
             violations.append((twin, rp))
     from . import kani
     report["kani"] = kani.run(prop, cfg)
